@@ -710,6 +710,49 @@ func runC16(args []string) int {
 			r.sample(map[string]interface{}{"records": s.specArgs(), "mode": mode})
 		}
 	}
+	// the lists are returned on DecodeChained's error path too: a chain whose LAST file fails part-way returns that
+	// file's partial File with the same lists Decode returns for it alone (same option values)
+	for i := 0; i < n/25; i++ {
+		cfg.illFormed = 0
+		s1 := genStream(rg, &cfg, st)
+		s2 := genStream(rg, &cfg, st)
+		d2 := s2.bytes()
+		if len(d2) < 40 {
+			continue
+		}
+		d2 = d2[:20+rg.intn(len(d2)-22)] // cut inside the data or the checksum
+		opts := optSet{false, true, true}
+		solo, msolo, err := w.decode("D", opts, readerSpec{Data: d2})
+		if err != nil {
+			return 2
+		}
+		i1, m1, err := w.decode("D", opts, readerSpec{Data: s1.bytes()})
+		if err != nil {
+			return 2
+		}
+		if i1.ErrClass != 0 || solo.ErrClass == 0 || len(solo.Raw) != 1 || solo.Raw[0] == nil {
+			continue
+		}
+		chain := append(append([]byte{}, s1.bytes()...), d2...)
+		ic, mc, err := w.decode("C", opts, readerSpec{Data: chain})
+		if err != nil {
+			return 2
+		}
+		rep := map[string]interface{}{"entry": "DecodeChained", "options": opts.String(), "input_hex": hexs(chain), "records_file1": s1.specArgs(), "records_file2_truncated": s2.specArgs(), "file2_bytes": len(d2)}
+		if solo.observableMasked() != msolo.observableMasked() || i1.observableMasked() != m1.observableMasked() || ic.observableMasked() != mc.observableMasked() {
+			r.corrFail("decode_opts_chain", "model and implementation differ on a chain whose last file is cut", rep)
+		}
+		if ic.ErrClass == 0 || len(ic.Raw) != 2 || ic.Raw[1] == nil {
+			continue // judged by C11
+		}
+		um1, uf1 := canonUnknown(solo.Raw[0])
+		um2, uf2 := canonUnknown(ic.Raw[1])
+		if um1 != um2 || uf1 != uf2 || (ic.Raw[1].UnknownMessages == nil) != (solo.Raw[0].UnknownMessages == nil) || (ic.Raw[1].UnknownFields == nil) != (solo.Raw[0].UnknownFields == nil) {
+			r.specFail("lists_on_chained_failure", fmt.Sprintf("DecodeChained returns the partial File of a failing last file with unknown lists %s %s (nil: %v %v); Decode on that file alone returns %s %s", um2, uf2, ic.Raw[1].UnknownMessages == nil, ic.Raw[1].UnknownFields == nil, um1, uf1), rep)
+		}
+		r.count("chainfail"+fmt.Sprint(i), true)
+		r.hist("chained_failure_lists")
+	}
 	mergeStats(r, st)
 	return r.finish()
 }
